@@ -128,6 +128,17 @@ func (fx *Fx) evalPlace(st *State, e ast.Expr, spec bool) Place {
 	case *ast.BinaryExpr:
 		return Place{val: fx.evalBinary(st, x, spec)}
 	case *ast.CallExpr:
+		if id, ok := x.Fun.(*ast.Ident); ok && spec && id.Name == "mapcell" && len(x.Args) == 1 {
+			// mapcell(m): the contents of map m, as a location (for modifies clauses)
+			mv := fx.eval(st, x.Args[0], true)
+			m, ok := mv.T.Underlying().(*types.Map)
+			if !ok {
+				panic(unsupported("mapcell of a non-map"))
+			}
+			cell, _, _ := fx.mapSort(m)
+			fx.heapTerm(st, "map_"+cell, cell)
+			return Place{loc: &Loc{kind: locCell, key: "map_" + cell, ref: mv.X, T: mv.T, S: cell}}
+		}
 		vs := fx.evalCall(st, x, spec)
 		if len(vs) == 0 {
 			return Place{val: Val{S: SBool, X: "true"}}
